@@ -349,6 +349,7 @@ type rEnv struct {
 	pre     *State // state at function entry (clone)
 	post    *State // state at the evaluation point
 	useOld  bool
+	useHead bool
 	vars    map[string]Value // lets, spec params, function params, results
 	typs    map[string]types.Type
 	specs   map[string]*SpecFn
@@ -356,12 +357,16 @@ type rEnv struct {
 	bound   map[string]Term
 	err     error
 	depth   int
+	head     *State // state at the head of the current loop iteration (athead)
 	iterKey  string // loop whose current iteration the iter() trace queries refer to
 	assuming bool // the formula is being assumed: universally quantified facts become instantiable facts
 	pol     int // polarity of the expression being evaluated: 1 positive, -1 negative, 0 unknown
 }
 
 func (env *rEnv) st() *State {
+	if env.useHead && env.head != nil {
+		return env.head
+	}
 	if env.useOld {
 		return env.pre
 	}
@@ -652,7 +657,17 @@ func (env *rEnv) binary(n *rNode) Value {
 		if a.IsFalse() {
 			return sym(TTrue)
 		}
-		return sym(Implies(a, env.term(n.Args[1])))
+		if env.err != nil {
+			return sym(TFalse)
+		}
+		// a consequent that cannot be evaluated on this path (e.g. it talks about a call that did not happen)
+		// counts as false: the obligation then is that the antecedent does not hold here
+		c := env.term(n.Args[1])
+		if env.err != nil && env.pol >= 0 {
+			env.err = nil
+			c = TFalse
+		}
+		return sym(Implies(a, c))
 	case "<==>":
 		savedPol := env.pol
 		env.pol = 0
@@ -681,6 +696,9 @@ func (env *rEnv) binary(n *rNode) Value {
 	}
 	a := env.term(n.Args[0])
 	b := env.term(n.Args[1])
+	if op == "+" && a.Sort == SStr && b.Sort == SStr {
+		return sym(env.e.strConcat(a, b))
+	}
 	switch op {
 	case "<":
 		return sym(Lt(a, b))
@@ -719,6 +737,8 @@ func (l rList) zero(env *rEnv) Value {
 	switch l.kind {
 	case "event":
 		return sym(env.e.fresh(env.post, "noevent", SEvent))
+	case "feedev":
+		return sym(env.e.fresh(env.post, "nopush", SFeedEv))
 	}
 	return sym(env.e.fresh(env.post, "noitem", SInt))
 }
@@ -835,7 +855,7 @@ func (env *rEnv) field(n *rNode) Value {
 		case SFeedEv:
 			fe := map[string]*Sort{"opcode": SInt, "key": SBytes, "value": SBytes, "cas": SInt, "expiry": SInt, "datatype": SInt, "revno": SInt, "collid": SInt}
 			if srt, ok := fe[f]; ok {
-				return sym(App(srt, "fe."+f, b.T))
+				return sym(Acc(srt, "fe."+f, b.T))
 			}
 			if f == "isnil" {
 				return sym(Eq(b.T, mkT("FE_NIL", SFeedEv)))
